@@ -4,6 +4,8 @@
 (* freedom is what the base specification leaves open plus:                                         *)
 (*   - between start_b and start_e of an accepted start (the thread exists, the caller has not yet  *)
 (*     returned) a concurrent stop may be lost and a concurrent status may still be IDLE,           *)
+(*   - Dev_ExtStateIgnored: a module that implements _ext_state() as the docstring says is reported  *)
+(*     IDLE '' when no sequence is active (the code looks for readHwStatus instead),                  *)
 (*   - Dev_LateStop, Dev_EndBeforeHandle: named deviations of the code as it stands (reported as     *)
 (*     findings, never silently taken).  Dev_EndBeforeHandle: a sequence that is over before         *)
 (*     start_sequence has stored the thread handle leaves the handle of a thread that still has to   *)
@@ -25,12 +27,13 @@ SameStatus(a, b) == a.code = b.code /\ (a.code # "BUSY" => (a.word = b.word /\ a
 (* (event times are in half ticks) *)
 EndInTime == (pc' = "none" /\ stopflag /\ stopAt >= 0) => Ev.vt <= stopAt + 2 * MaxWait
 
+ExtIgnored == hook = "ext" /\ ~alive /\ out.kind = "none" /\ starting = "no"
 Settled == (~alive /\ owed = 0 /\ starting = "no") => cached.code # "BUSY"
 
 TStep ==
   /\ l <= Len(Traces[t])
   /\ l' = l + 1 /\ t' = t
-  /\ \/ /\ Ev.ev = "init" /\ fm = Ev.fm /\ UNCHANGED <<svars, devs, starting, runid, stopAt, ghost>>
+  /\ \/ /\ Ev.ev = "init" /\ fm = Ev.fm /\ hook = Ev.hook /\ UNCHANGED <<svars, devs, starting, runid, stopAt, ghost>>
      \/ /\ Ev.ev = "start_b" /\ starting = "no"
         /\ \/ Start(Ev.seq) /\ UNCHANGED devs
            \/ ghost /\ ~alive /\ Refuse /\ devs' = devs \cup {"Dev_EndBeforeHandle"}
@@ -65,15 +68,18 @@ TStep ==
                  ELSE /\ Ev.code = Status.code
                       /\ TextBinding(pc) => (Ev.word = Status.word /\ Ev.k = Status.k)
               /\ UNCHANGED devs
+           \/ ExtIgnored /\ SameStatus(ObsStatus(Ev), Idle) /\ devs' = devs \cup {"Dev_ExtStateIgnored"}
            \/ ghost /\ ~alive /\ Ev.code = "BUSY" /\ devs' = devs \cup {"Dev_EndBeforeHandle"}
         /\ cached' = ObsStatus(Ev)
-        /\ UNCHANGED <<seq, k, i, n, pc, res, stopflag, out, owed, last, fm, starting, runid, stopAt, ghost>>
+        /\ UNCHANGED <<seq, k, i, n, pc, res, stopflag, out, owed, last, fm, hook, starting, runid, stopAt, ghost>>
      \/ /\ Ev.ev = "end" /\ owed > 0 /\ owed' = owed - 1      \* (its poll was the preceding status event of th = seq)
         /\ ghost' = (ghost /\ owed' > 0)
-        /\ UNCHANGED <<seq, k, i, n, pc, res, stopflag, out, cached, last, fm, devs, starting, runid, stopAt>>
+        /\ UNCHANGED <<seq, k, i, n, pc, res, stopflag, out, cached, last, fm, hook, devs, starting, runid, stopAt>>
      \/ /\ Ev.ev = "quiet" /\ pc = "none" /\ owed = 0 /\ starting = "no"     \* all threads are gone
-        /\ SameStatus(Ev.cached, cached) /\ SameStatus(Ev.live, Status)
-        /\ UNCHANGED <<svars, devs, starting, runid, stopAt, ghost>>
+        /\ SameStatus(Ev.cached, cached)
+        /\ \/ SameStatus(Ev.live, Status) /\ UNCHANGED devs
+           \/ ExtIgnored /\ SameStatus(Ev.live, Idle) /\ devs' = devs \cup {"Dev_ExtStateIgnored"}
+        /\ UNCHANGED <<svars, starting, runid, stopAt, ghost>>
   (* when no sequence is alive and every finished thread has polled, the status parameter is not BUSY *)
   /\ Settled' \/ "Dev_EndBeforeHandle" \in devs'
 
